@@ -174,6 +174,12 @@ type LegOptions struct {
 	// processor, all on the leg's subject and in one queue group (a scaled-out
 	// deployment): the broker hands each request to exactly one of them.
 	NatsInstances int
+	// TCPFirstConnPartial (tcp leg) puts a relay in front of the server whose
+	// FIRST connection is answered by the relay itself with the beginning of a
+	// reply frame (a size prefix announcing 200 bytes, 10 bytes of body) and then
+	// closed — a connection lost in the middle of a reply; every later
+	// connection is relayed to the real server.
+	TCPFirstConnPartial bool
 }
 
 // ---- in-memory server transport --------------------------------------------
@@ -270,6 +276,42 @@ func StartRPCLeg(kind, proto string, processor frugal.FProcessor, nsrv *NatsServ
 			return nil, err
 		}
 		addr := ss.Addr().String()
+		realAddr := addr
+		if opt.TCPFirstConnPartial {
+			ln, err := net.Listen("tcp", "127.0.0.1:0")
+			if err != nil {
+				return nil, err
+			}
+			addr = ln.Addr().String()
+			leg.stop = append(leg.stop, func() { ln.Close() })
+			go func() {
+				for n := 0; ; n++ {
+					c, err := ln.Accept()
+					if err != nil {
+						return
+					}
+					if n == 0 {
+						go func() {
+							buf := make([]byte, 4096)
+							c.Read(buf) // the request
+							c.Write(append([]byte{0, 0, 0, 200}, bytes.Repeat([]byte{0x2a}, 10)...))
+							c.Close()
+						}()
+						continue
+					}
+					go func() {
+						up, err := net.Dial("tcp", realAddr)
+						if err != nil {
+							c.Close()
+							return
+						}
+						go func() { io.Copy(up, c); up.Close() }()
+						io.Copy(c, up)
+						c.Close()
+					}()
+				}
+			}()
+		}
 		srv := frugal.NewFSimpleServer(processor, ss, leg.PF)
 		var preMu sync.Mutex
 		var pre []net.Conn
